@@ -12,15 +12,24 @@ import (
 	"bytes"
 	"crypto/sha256"
 	"fmt"
+	"io"
+	"math/big"
 	"os"
 	"strings"
 	"testing"
 
 	"pgregory.net/rapid"
 
+	simchannel "perun.network/go-perun/backend/sim/channel"
 	simwallet "perun.network/go-perun/backend/sim/wallet"
+	simwire "perun.network/go-perun/backend/sim/wire"
+	"perun.network/go-perun/channel"
+	"perun.network/go-perun/client"
 	"perun.network/go-perun/wallet"
+	"perun.network/go-perun/wire"
 	"perun.network/go-perun/wire/perunio"
+	perunser "perun.network/go-perun/wire/perunio/serializer"
+	"perun.network/go-perun/wire/protobuf"
 
 	"verif/h"
 )
@@ -39,8 +48,23 @@ type walletBackend2 struct{ *simwallet.Backend }
 
 func (walletBackend2) NewAddress() wallet.Address { return &addr2{&simwallet.Address{}} }
 
+// channelBackend2 is a second channel backend (only NewAsset matters here:
+// assets of backend 1 are sim assets too).
+type channelBackend2 struct{}
+
+func (channelBackend2) CalcID(*channel.Params) (channel.ID, error) { return channel.ID{}, io.EOF }
+func (channelBackend2) Sign(wallet.Account, *channel.State) (wallet.Sig, error) {
+	return nil, io.EOF
+}
+func (channelBackend2) Verify(wallet.Address, *channel.State, wallet.Sig) (bool, error) {
+	return false, io.EOF
+}
+func (channelBackend2) NewAsset() channel.Asset          { return &simchannel.Asset{} }
+func (channelBackend2) NewAppID() (channel.AppID, error) { return nil, io.EOF }
+
 func registerSecondWalletBackend() {
 	wallet.SetBackend(walletBackend2{new(simwallet.Backend)}, int(backend2))
+	channel.SetBackend(channelBackend2{}, int(backend2))
 }
 
 func multiBackendProcess() bool {
@@ -58,6 +82,9 @@ func multiBackendProcess() bool {
 // MultiMapCase: a list of participant maps; A0/A1 are address seeds (0 = no entry).
 type MultiMapCase struct {
 	Parts [][2]uint64 `json:"parts"`
+	// AssetBackends: backend id (0 or 1) of every asset of an allocation that is
+	// round-tripped through both envelope serializers inside a channel update
+	AssetBackends []int `json:"asset_backends,omitempty"`
 }
 
 func drawMultiMapCase(t *rapid.T) MultiMapCase {
@@ -75,6 +102,7 @@ func drawMultiMapCase(t *rapid.T) MultiMapCase {
 		}
 		c.Parts = append(c.Parts, p)
 	}
+	c.AssetBackends = rapid.SliceOfN(rapid.IntRange(0, 1), 1, 4).Draw(t, "asset_backends")
 	return c
 }
 
@@ -130,7 +158,17 @@ func runMultiMapCase(c MultiMapCase) *h.Outcome {
 		}
 	}
 	o.Nontrivial = two > 0
+	mixed := false
+	for _, b := range c.AssetBackends {
+		if b != c.AssetBackends[0] {
+			mixed = true
+		}
+	}
+	o.Nontrivial = o.Nontrivial || mixed
 	o.Fail = h.Guard(func() *h.Failure {
+		if f := allocRoundTrip(c); f != nil {
+			return f
+		}
 		var first []byte
 		for k := 0; k < 24; k++ {
 			ms := c.maps() // fresh maps: another iteration order
@@ -190,4 +228,43 @@ func TestWalletMapsMulti(t *testing.T) {
 		c := drawMultiMapCase(rt)
 		rec.Report(rt, c, runMultiMapCase(c))
 	})
+}
+
+// allocRoundTrip sends a state whose assets sit on the given backends through
+// both envelope serializers.
+func allocRoundTrip(c MultiMapCase) *h.Failure {
+	if len(c.AssetBackends) == 0 {
+		return nil
+	}
+	al := channel.Allocation{Locked: []channel.SubAlloc{}}
+	for i, b := range c.AssetBackends {
+		al.Assets = append(al.Assets, &simchannel.Asset{ID: uint64(100 + i)})
+		al.Backends = append(al.Backends, wallet.BackendID(b))
+		al.Balances = append(al.Balances, []channel.Bal{big.NewInt(int64(3 + i)), big.NewInt(int64(5 + 2*i))})
+	}
+	st := &channel.State{Version: 4, App: channel.NoApp(), Data: channel.NoData(), Allocation: al}
+	st.ID[0] = 0xC4
+	msg := &client.ChannelUpdateMsg{ChannelUpdate: client.ChannelUpdate{State: st, ActorIdx: 1}, Sig: bytes.Repeat([]byte{7}, 64)}
+	env := &wire.Envelope{Sender: map[wallet.BackendID]wire.Address{0: simwire.NewAddress()}, Recipient: map[wallet.BackendID]wire.Address{0: simwire.NewAddress()}, Msg: msg}
+	for _, ser := range []struct {
+		name string
+		s    wire.EnvelopeSerializer
+	}{{"native", perunser.Serializer()}, {"protobuf", protobuf.Serializer()}} {
+		var b bytes.Buffer
+		if err := ser.s.Encode(&b, env); err != nil {
+			return h.Failf("multi:alloc-encode-error:"+ser.name, "a state whose assets sit on backends %v is not encodable: %v", c.AssetBackends, err)
+		}
+		d, err := ser.s.Decode(&b)
+		if err != nil {
+			return h.Failf("multi:alloc-decode-error:"+ser.name, "a state whose assets sit on backends %v does not decode from its own encoding: %v", c.AssetBackends, err)
+		}
+		got, ok := d.Msg.(*client.ChannelUpdateMsg)
+		if !ok || got.State == nil {
+			return h.Failf("multi:alloc-roundtrip:"+ser.name, "decoded message is %T", d.Msg)
+		}
+		if err := st.Equal(got.State); err != nil {
+			return h.Failf("multi:alloc-roundtrip:"+ser.name, "a state whose assets sit on backends %v comes back different (backends %v): %v", c.AssetBackends, got.State.Backends, err)
+		}
+	}
+	return nil
 }
